@@ -801,11 +801,8 @@ func guardsAt(b *ssa.BasicBlock) []Atom {
 		for idx := 0; idx < 2; idx++ {
 			if edgeDominates(a, idx, b) {
 				for _, g := range expandCond(iff.Cond, idx == 0, 0) {
-					if inner := helperAtoms(g); len(inner) > 0 {
-						// the helper's answer is replaced by what it stands for
-						out = append(out, inner...)
-						continue
-					}
+					// the helper's answer, and what it stands for
+					out = append(out, helperAtoms(g)...)
 					if at, ok := condAtom(g.Cond, g.Positive); ok {
 						out = append(out, at.canon())
 					}
@@ -1483,4 +1480,31 @@ func atomLowerBound(as []Atom, name string) int64 {
 		}
 	}
 	return best
+}
+
+// isExpandedHelperAtom: the atom is the answer of a small boolean helper of the module whose meaning
+// guardsAt has added next to it (see helperAtoms): rules that list the conditions something depends on
+// look at the meaning, not at the call.
+func isExpandedHelperAtom(p *Prog, a Atom) bool {
+	i := strings.Index(a.L, "(")
+	if i <= 0 || !strings.Contains(a.L, ")@") || (a.R != "true" && a.R != "false") {
+		return false
+	}
+	name := a.L[:i]
+	if j := strings.LastIndexAny(name, ".)"); j >= 0 {
+		name = name[j+1:]
+	}
+	for _, fn := range p.modFns {
+		if fn.Name() != name || fn.Parent() != nil {
+			continue
+		}
+		res := fn.Signature.Results()
+		if res.Len() != 1 {
+			continue
+		}
+		if bt, ok := res.At(0).Type().Underlying().(*types.Basic); ok && bt.Kind() == types.Bool {
+			return true
+		}
+	}
+	return false
 }
